@@ -34,6 +34,9 @@ pub trait Controller: Send + Sync + 'static {
     fn knob(&self, name: &'static str, default: usize) -> usize;
     /// A fresh number per call, used to tell concurrent reads apart in point details.
     fn seq(&self, name: &'static str) -> u64;
+    /// Non-blocking notification carrying text (e.g. a content hash), delivered synchronously
+    /// on the calling thread.
+    fn note(&self, site: &'static str, text: &str);
 }
 
 static CONTROLLER: RwLock<Option<Arc<dyn Controller>>> = RwLock::new(None);
@@ -117,5 +120,11 @@ pub fn seq(name: &'static str) -> u64 {
     match controller() {
         Some(c) => c.seq(name),
         None => 0,
+    }
+}
+
+pub fn note(site: &'static str, text: &str) {
+    if let Some(c) = controller() {
+        c.note(site, text);
     }
 }
